@@ -155,7 +155,6 @@ func allTypedSorted(r *ev.Run) int {
 	return n
 }
 
-
 // panickingLess: a less function that panics at its k-th call inside Add / Remove / Index / Contains (the
 // caller recovers). Afterwards the Sorted must still be sorted and hold either exactly what it held
 // before or exactly the completed operation's result - never a half-shifted slice.
